@@ -187,6 +187,13 @@ def c04_6(ctx):
         ctx.ok("scanned:" + f.qualname, nontrivial=False)
 
 
+def c04_7(ctx):
+    """the digest a signature operation checks is computed for THAT operation: the cache of digests lives for one
+    CHECKSIG / CHECKMULTISIG call (FindAndDelete makes the legacy digest depend on the signatures of the operation)"""
+    from rules import C03
+    C03.c03_13(ctx)
+
+
 OBLIGATIONS = [
     Ob("C04.1", "branch partition of all 256 hash types in every sighash function (legacy, BIP143, GRS, BCH, BTG)", c04_1, floor=11, engines="SYM,GI(finite)",
        breaks_if="hash types 0x06, 0x22, 0x43, 0xc3 ... (a mask other than 0x1f reclassifies them); 0x80-0xbf on fork-id coins", exhaustive=True),
@@ -194,5 +201,6 @@ OBLIGATIONS = [
     Ob("C04.3", "legacy blanking: fresh input copies, digest of the copy, hash type appended, FindAndDelete", c04_3, floor=7, engines="SYM"),
     Ob("C04.4", "fork-id folding (BTG 79<<8, BCH 0)", c04_4, floor=5, engines="CE,PM,SYM"),
     Ob("C04.5", "Groestlcoin methods equal the Bitcoin ones modulo double_sha256 -> sha256", c04_5, floor=5, engines="SYM,SIB"),
+    Ob("C04.7", "the sighash cache of CHECKSIG / CHECKMULTISIG is local to one call (shared with C03.13, C06.2)", c04_7, floor=5, engines="EF,DF", breaks_if="two signature operations with the same hash type in one legacy script"),
     Ob("C04.6", "no write with a non-fresh receiver in the sighash call tree", c04_6, floor=22, engines="EF", breaks_if="sequence zeroed on the real inputs; memo kept on the checker"),
 ]
